@@ -28,6 +28,8 @@ type Pkg struct {
 	Tree  fsx.Tree `json:"tree"` // targets may use {T} (the directory the fetcher writes into), {A} (arena), {SIB} (a sibling package directory)
 	Rules *string  `json:"rules,omitempty"`
 	Deps  []int    `json:"deps,omitempty"` // indices of packages this one depends on (root module)
+	// the rule file comes after 1.2 MiB of comment lines (rendered by the fetcher, not stored in the case)
+	PadRules bool `json:"pad_rules,omitempty"`
 }
 
 type Case struct {
@@ -40,6 +42,17 @@ type Case struct {
 }
 
 func addrOf(i int) string { return fmt.Sprintf("https://example.com/pkg%d.tgz", i) }
+
+// paddedRules: the rule file as fetched - for PadRules packages behind 1.2 MiB of comment lines.
+func paddedRules(p Pkg) string {
+	if p.Rules == nil {
+		return ""
+	}
+	if !p.PadRules {
+		return *p.Rules
+	}
+	return strings.Repeat("# "+strings.Repeat("-", 997)+"\n", 1200) + *p.Rules
+}
 
 type fetcher struct {
 	c     Case
@@ -66,7 +79,7 @@ func (f fetcher) FetchSourcePackage(ctx context.Context, st string, u *url.URL, 
 		}
 		tr := append(fsx.Tree{{Path: "main.tf", Kind: "file", Content: fmt.Sprintf("IN:pkg%d", i), Mode: 0644, Sec: 1500000000}}, p.Tree...)
 		if p.Rules != nil {
-			tr = append(tr, fsx.Node{Path: ".terraformignore", Kind: "file", Content: *p.Rules, Mode: 0644, Sec: 1500000000})
+			tr = append(tr, fsx.Node{Path: ".terraformignore", Kind: "file", Content: paddedRules(p), Mode: 0644, Sec: 1500000000})
 		}
 		return resp, fsx.Materialise(dir, tr, vars)
 	}
@@ -300,6 +313,8 @@ func reachableSet(c Case) map[int]bool {
 var hazardNodes = []fsx.Node{
 	{Path: "ln-file", Kind: "symlink", Target: "main.tf"},
 	// reads as inside the package, leaves it by way of an in-package link to "."
+	{Path: ".tfvars", Kind: "file", Content: "IN:vars", Mode: 0644},
+	{Path: "chain", Kind: "file", Content: "IN:chain", Mode: 0644},
 	{Path: "zz-dot", Kind: "symlink", Target: "."},
 	{Path: "ln-via-dot-out", Kind: "symlink", Target: "zz-dot/../../canary"},
 	{Path: "sub/ln-via-dot-root", Kind: "symlink", Target: "../zz-dot/.."},
@@ -414,6 +429,7 @@ func TestPropSanitised(t *testing.T) {
 			if lines != nil && !have[".terraformignore"] {
 				s := strings.Join(lines, "\n") + "\n"
 				p.Rules = &s
+				p.PadRules = rapid.IntRange(0, 19).Draw(t, "padrules") == 0
 			}
 			if n > 1 {
 				p.Deps = rapid.SliceOfN(rapid.IntRange(0, n-1), 0, 2).Draw(t, "deps")
